@@ -91,6 +91,13 @@ func (w *world) domain(recv, method string, idx int, t reflect.Type, variadic bo
 		canceled, cancel := context.WithCancel(context.Background())
 		cancel()
 		vs := []reflect.Value{reflect.ValueOf(context.Background()), reflect.ValueOf(canceled)}
+		if recv == "func" {
+			// helpers that wait do so until their context ends: a live context
+			// that ends by itself instead of the background one
+			live, cancelLive := context.WithTimeout(context.Background(), 300*time.Millisecond)
+			_ = cancelLive
+			vs = []reflect.Value{reflect.ValueOf(live), reflect.ValueOf(canceled)}
+		}
 		// nil only where the godoc says "ctx: optional"
 		if recv == "Machine" && (len(method) > 4 && method[:4] == "When" || method == "Eval" || method == "NewStateCtx") {
 			vs = append(vs, reflect.Zero(tCtx))
@@ -126,9 +133,15 @@ func (w *world) domain(recv, method string, idx int, t reflect.Type, variadic bo
 		return []reflect.Value{reflect.ValueOf(am.Tracer(&am.TracerNoOp{Id: "c20t"}))}
 	case tApi:
 		return []reflect.Value{reflect.ValueOf(am.Api(w.m))}
+	case tMachine:
+		return []reflect.Value{reflect.ValueOf(w.m)}
 	case tRegexp:
 		return vals(regexp.MustCompile("^A"), regexp.MustCompile(".*"))
 	case tDur:
+		if key == "func.amhelp.Interval/2" {
+			// the tick interval of a time.Ticker has to be positive (time.NewTicker)
+			return vals(time.Millisecond, 5*time.Millisecond)
+		}
 		return vals(time.Duration(0), time.Millisecond)
 	case tLogLvl:
 		return vals(am.LogNothing, am.LogChanges, am.LogEverything)
@@ -173,8 +186,25 @@ func (w *world) domain(recv, method string, idx int, t reflect.Type, variadic bo
 		return []reflect.Value{reflect.MakeSlice(t, 0, 0)}
 	case reflect.Map:
 		return []reflect.Value{reflect.MakeMap(t), reflect.Zero(t)}
-	case reflect.Ptr, reflect.Interface:
+	case reflect.Ptr:
+		// a pointer to a struct: the zero struct (a nil pointer is a caller
+		// bug unless the godoc says optional, which the typed cases above cover)
+		if t.Elem().Kind() == reflect.Struct {
+			return []reflect.Value{reflect.New(t.Elem())}
+		}
 		return []reflect.Value{reflect.Zero(t)}
+	case reflect.Interface:
+		if t.NumMethod() == 0 {
+			return []reflect.Value{reflect.ValueOf(&struct{}{}), reflect.ValueOf("x")}
+		}
+		// typed-args values for the ArgsApi-like interfaces
+		var vs []reflect.Value
+		for _, c := range []any{am.ACheck{}, &am.ACheck{}, am.AException{}, &am.AException{Err: rec.ErrInjected}} {
+			if reflect.TypeOf(c).Implements(t) {
+				vs = append(vs, reflect.ValueOf(c).Convert(t))
+			}
+		}
+		return vs
 	case reflect.Struct:
 		return []reflect.Value{reflect.Zero(t)}
 	case reflect.Chan:
@@ -202,6 +232,14 @@ func (w *world) precondition(recv, method string, rv reflect.Value, tup []reflec
 			}
 		}
 		return len(t) <= n
+	case "func.am.NewTime", "func.am.NewTimeIndex":
+		// the active indexes point into the index list
+		n := tup[0].Len()
+		for _, i := range tup[1].Interface().([]int) {
+			if i >= n {
+				return false
+			}
+		}
 	case "Mutation.CalledIndex", "Mutation.StringFromIndex":
 		mut := rv.Interface().(*am.Mutation)
 		index := tup[0].Interface().(am.S)
